@@ -157,19 +157,31 @@ def dominating_guards(F, fid, bb, org=None):
         t = fn["bbs"][s]["t"]
         if t[1] != "switch":
             continue
-        edge = None
-        n = 0
+        # group the switch values by target: several values may share the one target that dominates bb (`Equal | Greater => ..`)
+        by_tgt = {}
         for v, tgt in t[3]:
-            if dominated_by(fn, bb, tgt):
-                edge = v
-                n += 1
-        if dominated_by(fn, bb, t[4]) and t[4] not in [x[1] for x in t[3]]:
-            edge = "other"
-            n += 1
-        if n != 1:
+            by_tgt.setdefault(tgt, []).append(v)
+        if t[4] not in by_tgt:
+            by_tgt[t[4]] = ["other"]
+        dom_t = [tg for tg in by_tgt if dominated_by(fn, bb, tg)]
+        if len(dom_t) != 1:
             continue
+        edge = "|".join(by_tgt[dom_t[0]])
         out.append((s, edge, describe_cond(F, fid, s, org)))
     return out
+
+
+ORD_LESS, ORD_EQUAL, ORD_GREATER = "255", "0", "1"
+
+
+def cmp3_implies(edge, rel):
+    """edge = the Ordering discriminants (of `a.cmp(&b)`) under which the block is reached, e.g. '0|1'; True when every one of them
+    satisfies  a <rel> b  (rel in ge gt le lt eq ne). 'other' stands for the values not listed and proves nothing."""
+    vals = set(edge.split("|"))
+    if "other" in vals or not vals <= {ORD_LESS, ORD_EQUAL, ORD_GREATER}:
+        return False
+    ok = {"ge": {ORD_EQUAL, ORD_GREATER}, "gt": {ORD_GREATER}, "le": {ORD_LESS, ORD_EQUAL}, "lt": {ORD_LESS}, "eq": {ORD_EQUAL}, "ne": {ORD_LESS, ORD_GREATER}}[rel]
+    return vals <= ok
 
 
 def describe_cond(F, fid, s, org):
@@ -197,6 +209,14 @@ def describe_cond(F, fid, s, org):
             cur = op_place(rv[1])
             continue
         if rv[0] == "discr":
+            # a match on the Ordering returned by a.cmp(&b): a three-way comparison
+            src = rv[1].split("|")[0]
+            sd = [d for d in org.defs.get(src, []) if d[2] == rv[1] or d[2] == src]
+            if len(sd) == 1 and sd[0][0] == "call":
+                cto = sd[0][3][2].get("to") or ""
+                if cto.endswith("::cmp") and ("Ord" in cto):
+                    cx = sd[0][3]
+                    return {"kind": "cmp3", "callee": cto, "neg": neg, "args": [sorted(org.of_operand(a)) for a in cx[3]], "bb": sd[0][1], "ga": cx[2].get("ga") or ""}
             return {"kind": "discr", "neg": neg, "of": sorted(org.of_place(rv[1])), "bb": bi}
         break
     return {"kind": "other", "neg": neg, "of": sorted(org.of_place(pl)) if pl else []}
